@@ -223,7 +223,7 @@ def r2_r3(ctx, F, table):
                           "%s: argument `%s` of fs.%s does not derive from %s (is `%s`)" % (name, pn, want, need, g[:300]),
                           loc=calls[0][1].loc(), detail=g[:120])
                 continue
-            ctx.check("R3-arg-provenance", "%s.%s" % (name, pn), g == e,
+            ctx.check("R3-arg-provenance", "%s.%s" % (name, pn), vf.same_text(g, e),
                       "%s: argument `%s` of fs.%s is `%s`, the request encodes it as `%s`" % (name, pn, want, g[:300], e),
                       loc=calls[0][1].loc(), detail=g[:120])
         if len(ctx.samples) < 6:
